@@ -52,6 +52,18 @@ CHECKS = {
     note="Trusted: Coq kernel; extraction + driver; harness; strip_code is abstract (its output is the model's input); "
          "isspace/upper tables dumped from CPython. No axioms.",
     technique="Coq proof (kernel of a normalising function; list induction for strip) + model/implementation correspondence"),
+ "C17": dict(
+    category="proof",
+    text="Theorems (Coq): restoring a pickle of a page with some of its views gives valid, registered views with the same content "
+         "(pickle_copy over the C13 model); any operation touches only the store of its target, so original and copy never influence "
+         "each other (frame theorem, all operations, all states); the pickling methods are pinned to the modelled shape on definitions "
+         "regenerated from /repo's source. Tied to /repo by driving objects RESTORED from pickle (every protocol) through C11's edit "
+         "histories against the extracted model, and by an oracle on grammar documents x {tree, tree+views, lone view, node} x "
+         "{protocols, deepcopy}: text, structure, same slice-info object registered, no shared mutable object, edits both ways.",
+    design_ref="DESIGN.md section 5, C17",
+    note="Trusted: CPython's pickle/copy build an isomorphic object graph following __reduce_ex__/__setstate__; C13/C11 trusted base; "
+         "the source-to-Coq generator for the protocol methods (ast.unparse). No axioms.",
+    technique="Coq proof (frame property + copy invariant) + generated protocol shape + model/implementation correspondence on restored objects"),
 }
 
 NOT_YET = {}
